@@ -16,6 +16,10 @@ for d in sorted(os.listdir(f"{V}/seeded")):
         m = re.search(r"^## %s.*?\n(.*?)(?=^## |\Z)" % name, notes, re.M | re.S)
         return m.group(1).strip() if m else ""
     files = sorted(set(re.findall(r"^\+\+\+ b/(.*)$", open(f"{p}/patch.diff").read(), re.M)))
+    prev = {}
+    if os.path.exists(f"{p}/meta.json"):
+        try: prev = json.load(open(f"{p}/meta.json"))
+        except Exception: prev = {}
     r = res.get(d, {})
     runs = r.get("runs", [])
     meta = {
@@ -27,9 +31,10 @@ for d in sorted(os.listdir(f"{V}/seeded")):
         "needs_to_manifest": section("What is needed to manifest") or section("What breaks"),
         "what_breaks": section("What breaks"),
         "demonstration": "demo_test.go (in-package test; fails on the patched tree, passes on the unpatched tree)",
-        "confirmed_by": "tools/seedconfirm.sh in the sub-agent's scratch worktree: (i) full pinned suite passes with the patch, (ii) the demonstration test fails with the patch, (iii) it passes without the patch; worktree removed afterwards",
+        "confirmed_by": "tools/seedconfirm.sh / seedconfirm2.sh in the sub-agent's scratch worktree: (i) full pinned suite passes with the patch, (ii) the demonstration test fails with the patch, (iii) it passes without the patch; worktree removed afterwards",
         "rebased": os.path.exists(f"{p}/patch.orig.diff"),
-        "expected_checks": [d.split("-")[0]],
+        "expected_checks": prev.get("expected_checks") or [d.split("-")[0]],
+        "round": 2 if d.endswith("-2") else 1,
         "selftest": [{"check": x["property"], "caught": x["exit"] == 1 and x["violations"] > 0, "violations": x["violations"],
                       "obligations": x["obligations"][:5], "wall_s": x["wall_s"]} for x in runs],
     }
